@@ -6,12 +6,21 @@
 #include <optional>
 #include <istream>
 
+#if defined(BITSERIALIZER_VERIF)
+struct BitSerializerVerifAccess;
+#endif
+
 namespace BitSerializer::Detail
 {
 	class CBinaryStreamReader
 	{
 	public:
+#if defined(BITSERIALIZER_VERIF) && defined(BITSERIALIZER_VERIF_CHUNK_SIZE)
+		// Verification hook: shrink the window so that every boundary alignment is reachable with small documents
+		static constexpr size_t chunk_size = BITSERIALIZER_VERIF_CHUNK_SIZE;
+#else
 		static constexpr size_t chunk_size = 256;
+#endif
 
 		explicit CBinaryStreamReader(std::istream& inputStream);
 		CBinaryStreamReader(const CBinaryStreamReader&) = delete;
@@ -32,6 +41,10 @@ namespace BitSerializer::Detail
 		[[nodiscard]] std::string_view ReadByChunks(size_t remainingSize);
 
 	private:
+#if defined(BITSERIALIZER_VERIF)
+		// Verification hook: lets the conformance harness project the private window state
+		friend struct ::BitSerializerVerifAccess;
+#endif
 		bool ReadNextChunk();
 
 		std::istream& mStream;
